@@ -47,6 +47,8 @@ pub fn strategy() -> BoxedStrategy<Case> {
         1 => Just(Answer::Errno(libc::EXDEV)),
         1 => Just(Answer::Errno(libc::EIO)),
         1 => Just(Answer::Errno(libc::ETXTBSY)),
+        1 => Just(Answer::Errno(libc::ENOTTY)),
+        1 => Just(Answer::Errno(libc::ENOSYS)),
         3 => Just(Answer::EmulatedOk),
         2 => any::<u64>().prop_map(Answer::EmulatedSome),
     ];
@@ -181,7 +183,7 @@ pub fn judge(c: &Case, rec: &mut Rec) -> Verdict {
         return Verdict::Pass;
     }
     // auto
-    let all_unsupported_benign = matches!(c.answer, Answer::Real | Answer::Errno(libc::EOPNOTSUPP) | Answer::Errno(libc::EINVAL) | Answer::Errno(libc::EXDEV) | Answer::Errno(libc::ETXTBSY));
+    let all_unsupported_benign = matches!(c.answer, Answer::Real | Answer::Errno(libc::EOPNOTSUPP) | Answer::Errno(libc::EINVAL) | Answer::Errno(libc::EXDEV) | Answer::Errno(libc::ETXTBSY) | Answer::Errno(libc::ENOTTY) | Answer::Errno(libc::ENOSYS));
     if all_unsupported_benign && !out.ok() {
         return fail("no-fallback", format!("--reflink=auto with cloning unavailable ({}) must fall back to a copy, but exit {:?}", ans_name, out.code));
     }
@@ -201,7 +203,7 @@ impl Check for C15 {
         "fault_enumeration"
     }
     fn rule(&self) -> String {
-        "C01's generated trees of 1-5 regular files (empty, sparse, multi-block, with and without prior destination) x driver x --reflink auto|always|never|(absent) x the answer given to ioctl(FICLONE) by the ptrace supervisor: the real filesystem's (EOPNOTSUPP), an injected EOPNOTSUPP/EINVAL/EXDEV/ETXTBSY, a hard EIO, emulated success for every request, or emulated success for a generated half of the requests; -v given 0-2 times, and in 30 % of the cases stdout is /dev/full so that every write of the logger fails. Oracle over the syscall log, exit status and bytes: never => no FICLONE at all; always => exit 0 only if every destination file has a successful clone and no data-copy call, and any failed clone request => exit != 0; auto => on each destination file the first clone attempt precedes the first data-copy call, unavailable cloning (EOPNOTSUPP/EINVAL/EXDEV/ETXTBSY/real) => exit 0, and exit 0 => bytes identical (also after emulated clones). Non-trivial: >= 1 non-empty file; distinct by case hash.".into()
+        "C01's generated trees of 1-5 regular files (empty, sparse, multi-block, with and without prior destination) x driver x --reflink auto|always|never|(absent) x the answer given to ioctl(FICLONE) by the ptrace supervisor: the real filesystem's (EOPNOTSUPP), an injected EOPNOTSUPP/EINVAL/EXDEV/ETXTBSY/ENOTTY/ENOSYS (the ioctl itself unknown to the filesystem or kernel), a hard EIO, emulated success for every request, or emulated success for a generated half of the requests; -v given 0-2 times, and in 30 % of the cases stdout is /dev/full so that every write of the logger fails. Oracle over the syscall log, exit status and bytes: never => no FICLONE at all; always => exit 0 only if every destination file has a successful clone and no data-copy call, and any failed clone request => exit != 0; auto => on each destination file the first clone attempt precedes the first data-copy call, unavailable cloning (EOPNOTSUPP/EINVAL/EXDEV/ETXTBSY/ENOTTY/ENOSYS/real) => exit 0, and exit 0 => bytes identical (also after emulated clones). Non-trivial: >= 1 non-empty file; distinct by case hash.".into()
     }
     fn assumptions(&self) -> Vec<String> {
         vec!["no reflink-capable filesystem in the sandbox: clone success is emulated at the ioctl boundary (supervisor copies the bytes and returns 0)".into()]
@@ -229,6 +231,6 @@ impl Check for C15 {
         }
     }
     fn required_classes(&self, _tier: Tier) -> Vec<String> {
-        ["auto|", "always|", "never|", "default|", "emulated-ok", "emulated-some", "errno95", "errno22", "errno18", "errno5|", "|real|", "always|emulated-ok|parblock|", "always|emulated-ok|parfile|", "verbose=2|stdout=/dev/full|auto", "verbose=2|stdout=/dev/full|always"].iter().map(|s| s.to_string()).collect()
+        ["auto|", "always|", "never|", "default|", "emulated-ok", "emulated-some", "errno95", "errno22", "errno18", "errno25", "errno38", "errno5|", "|real|", "always|emulated-ok|parblock|", "always|emulated-ok|parfile|", "verbose=2|stdout=/dev/full|auto", "verbose=2|stdout=/dev/full|always"].iter().map(|s| s.to_string()).collect()
     }
 }
